@@ -111,6 +111,40 @@ Proof.
     cbn [ext] in *. apply (gr_co F L Hwf H3).
 Qed.
 
+(* [answer_ok] spelled out (the form used in Properties/C05.v) *)
+Lemma answer_ok_spelled : forall q s cert F al oc,
+  answer_ok q s cert F al oc <->
+  match q, oc with
+  | QSE, OExt (Some L) => ext s F L /\ NoDup L /\ incl L (args F)
+  | QSE, OExt None => s = ST /\ forall S, ~ ext ST F S
+  | QDC, OAcc b c =>
+      (b = true <-> cred s F al) /\
+      match c with
+      | Some L => cert = true /\ b = true /\
+                  ext (match s with PR => CO | _ => s end) F L /\ NoDup L /\ incl L (args F) /\
+                  exists a, In a al /\ In a L
+      | None => cert = true -> b = false
+      end
+  | QDS, OAcc b c =>
+      (b = true <-> skep s F al) /\
+      match c with
+      | Some L => cert = true /\ b = false /\ ext s F L /\ NoDup L /\ incl L (args F) /\
+                  forall a, In a al -> ~ In a L
+      | None => cert = true -> b = true
+      end
+  | _, _ => False
+  end.
+Proof.
+  intros q s cert F al oc. destruct q, oc as [[L|]|b [L|]]; cbn [answer_ok witness_sem]; try reflexivity;
+    destruct s; reflexivity.
+Qed.
+
+(* every row of the dispatch: the entry point exists and the encoder is admissible *)
+Theorem dispatch_rows_ok : forall raw q s eo,
+  read_problem_string raw = inr (q, s) ->
+  supported (solver_for q s) q /\ enc_ok (solver_for q s) (encoder_for raw s eo).
+Proof. intros raw q s eo H. split; [apply dispatch_supported|apply dispatch_enc_ok; exact H]. Qed.
+
 (* ------------------------------------------------------------------ the log *)
 Lemma no_unknown_rev : forall l, no_unknown l -> forall k a, ~ In (k, ESolve a Unknown) (rev l).
 Proof.
